@@ -298,11 +298,24 @@ def table_valid(c):
                     return False
         if c["bom"] and c["bin"]:
             return False
+        if "pads" in c and not pads_valid(c["pads"]):
+            return False
+        if not isinstance(c.get("sf", False), bool) or not isinstance(c.get("sl", False), bool):
+            return False
         if not isinstance(c.get("sel", []), list) or not set(c.get("sel", [])) <= set(hdr) or len(set(c.get("sel", []))) != len(c.get("sel", [])):
             return False
         return True
     except Exception:
         return False
+
+
+def pads_valid(pads):
+    return isinstance(pads, list) and all(isinstance(p, list) and len(p) == 2 and all(isinstance(x, str) and all(ch in BLANKS for ch in x) for x in p) for p in pads)
+
+
+def gen_pads(rng, blanks):
+    """blanks to put around the cells of a table (consumed cyclically by padded_table)"""
+    return [[("".join(rng.choice(blanks) for _ in range(rng.choice([0, 0, 1, 2])))) for _ in range(2)] for _ in range(rng.randint(1, 5))]
 
 
 def first_data_row(rows):
@@ -483,11 +496,21 @@ def check_csv_module(c):
 
 
 def check_eol_bom_invariant(c):
-    """C: the same records for LF/CRLF and BOM/no BOM (text mode), binary = encoded text (no BOM)"""
+    """C: the same records for LF/CRLF and BOM/no BOM (text mode), binary = encoded text (no BOM) -
+    also with strip_field / strip_line (`sf`, `sl`) on a table written with blanks around its cells
+    (`pads`; the options name the cells without the blanks)"""
     bm = build_mode(c)
     if bm is None:
         return None
     with_header, k, _exp = bm
+    if c.get("sf"):
+        k = dict(k, strip_field=True)
+    if c.get("sl"):
+        k = dict(k, strip_line=True)
+    tab = c
+    if c.get("pads"):
+        phdr, prows = padded_table(c)
+        tab = dict(c, hdr=phdr, rows=prows)
     load_csv = impl()[0]
     res = {}
     for eol in EOLS:
@@ -495,7 +518,7 @@ def check_eol_bom_invariant(c):
             for binary in (False, True):
                 if bom and binary:
                     continue
-                cc = dict(c, eol=eol, bom=bom, bin=binary)
+                cc = dict(tab, eol=eol, bom=bom, bin=binary)
                 p = make_table_file(cc, with_header)
                 kw = encode_kwargs(dict(k, delimiter=c["d"]), binary)
                 if binary:
@@ -586,7 +609,32 @@ def cls_native_default(c, detail=None):
     return c.get("cn") is None and (c["ch"] == "D" or bool(CH_VALUES.get(c["ch"])))
 
 
+def cls_binary_unicode_blank(c, detail=None):
+    """C14-g: binary read mode, strip_field or strip_line, and a cell (strip_field) or written line
+    (strip_line) from whose edge str.strip() removes a blank that bytes.strip() leaves on the encoded
+    form (\\x1c-\\x1f, U+0085, U+00A0, U+2003 ...; `uni_edge`).  Applies to the evaluators that compare
+    binary mode with the encoded text-mode table (strip_field, eol_bom_invariant); B cases (`file`) are
+    not in the class: the model follows bytes.strip()."""
+    if "file" in c or "pads" not in c:
+        return False
+    hdr, rows = padded_table(c)
+    if "smode" in c:  # evaluator strip_field: strip_field=True, read mode `bin`
+        written = ([hdr] if c["smode"] == "file" else []) + rows
+        return bool(c.get("bin")) and any(uni_edge(x) for r in written for x in r)
+    if "mode" in c and (c.get("sf") or c.get("sl")):  # evaluator eol_bom_invariant: always compares binary with text
+        bm = build_mode(c)
+        if bm is None:
+            return False
+        written = ([hdr] if bm[0] else []) + rows
+        if c.get("sf") and any(uni_edge(x) for r in written for x in r):
+            return True
+        if c.get("sl") and any(uni_edge(writer_line(r, c["d"], "")) for r in written):
+            return True
+    return False
+
+
 CLASSIFIERS = {
+    "cls_binary_unicode_blank": cls_binary_unicode_blank,
     "cls_native_default": cls_native_default,
     "cls_legacy_true": cls_legacy_true,
     "cls_xpath_name": cls_xpath_name,
@@ -610,6 +658,10 @@ def witness_fails(finding):
     w = finding["witness"]
     if "nmode" in w:
         return check_native_agrees(w) is not None
+    if "smode" in w:
+        return check_strip_field(w) is not None
+    if "mode" in w and "pads" in w:
+        return check_eol_bom_invariant(w) is not None
     if "mode" in w:
         return check_roundtrip(w) is not None
     if "file" in w:
@@ -1008,14 +1060,23 @@ def check_simple_soup(c):
 
 
 # ---- C: closed forms for strip_field / strip_line / skip_empty_lines=False ----------------------
-BLANKS = [" ", "\t", "\xa0", " ", "\x0b"]
+BLANKS = [" ", "\t", "\xa0", "\u2003", "\x0b", "\x85", "\x1c", "\u2028", "\u3000", "\x0c"]
+ASCII_BLANKS = [" ", "\t", "\x0b", "\x0c"]
+ASCII_WS = " \t\n\r\x0b\x0c"  # what bytes.strip() removes (str.strip() removes every str.isspace() character)
+
+
+def uni_edge(s):
+    """str.strip() removes from `s` a blank that bytes.strip() leaves on its encoded form (\\x1c-\\x1f, U+0085, U+00A0, U+2003 ...)"""
+    return s.strip() != s.strip(ASCII_WS)
 
 
 def strip_valid(c):
     try:
-        if not table_valid(dict(c, mode="file:mand", bin=False)) or c.get("via") not in ("save_csv", "writer") or c.get("smode") not in ("file", "pos"):
+        if not isinstance(c.get("bin", False), bool):
             return False
-        return isinstance(c["pads"], list) and all(isinstance(p, list) and len(p) == 2 and all(isinstance(x, str) and all(ch in BLANKS for ch in x) for x in p) for p in c["pads"])
+        if not table_valid(dict(c, mode="file:mand", bin=c.get("bin", False))) or c.get("via") not in ("save_csv", "writer") or c.get("smode") not in ("file", "pos"):
+            return False
+        return pads_valid(c["pads"])
     except Exception:
         return False
 
@@ -1037,29 +1098,32 @@ def padded_table(c):
 
 def check_strip_field(c):
     """C14_strip_field: strip_field=True on a table whose written cells carry surrounding blanks
-    yields the records of the table of stripped cells (names stripped too)"""
+    yields the records of the table of stripped cells (names stripped too); in binary read mode
+    (`bin`) the same table as encoded bytes ("binary read mode yields the same table as encoded bytes")"""
     load_csv = impl()[0]
     d = c["d"]
+    binary = bool(c.get("bin", False))
     hdr, rows = padded_table(c)
-    if d in "".join(BLANKS) and False:
-        return None
     shdr = [x.strip() for x in hdr]
     srows = [[x.strip() for x in r] for r in rows if r]
     if len(set(shdr)) != len(shdr):
         return None
-    cc = dict(c, hdr=hdr, rows=rows, bin=False)
+    cc = dict(c, hdr=hdr, rows=rows, bin=binary)
+    kw = encode_kwargs(dict(delimiter=d, strip_field=True), binary)
+    kw["delimiter"] = d
     if c["smode"] == "file":
         p = make_table_file(cc, True)
-        r = core.call(lambda: [list(x.items()) for x in load_csv(p, delimiter=d, header_is_mandatory=True, strip_field=True)])
+        r = core.call(lambda: [list(x.items()) for x in load_csv(p, header_is_mandatory=True, **kw)])
         want = [rec_of(shdr, row) for row in srows]
     else:
         if not srows:
             return None
         p = make_table_file(cc, False)
-        r = core.call(lambda: [list(x.items()) for x in load_csv(p, delimiter=d, strip_field=True)])
+        r = core.call(lambda: [list(x.items()) for x in load_csv(p, **kw)])
         want = [rec_of(list(range(len(srows[0]))), row) for row in srows]
+    want = encode_expected(want, binary)
     if r != ("ok", want):
-        return {"got": repr(r)[:300], "want": repr(want)[:300], "file": repr(open(p, "rb").read())[:300]}
+        return {"got": repr(r)[:300], "want": repr(want)[:300], "kwargs": repr(kw), "file": repr(open(p, "rb").read())[:300]}
     return None
 
 
@@ -1076,15 +1140,20 @@ def check_strip_line_clean(c):
     if not outer_clean(c):
         return None
     bm = build_mode(c)
-    if bm is None or c["bin"]:
+    if bm is None:
         return None
-    with_header, k, _exp = bm
+    with_header, k, exp = bm
     p = make_table_file(c, with_header)
-    kw = dict(k, delimiter=c["d"])
+    kw = encode_kwargs(dict(k, delimiter=c["d"]), c["bin"])
+    kw["delimiter"] = c["d"]
     a = core.call(lambda: [list(x.items()) for x in load_csv(p, strip_line=True, **kw)])
     b = core.call(lambda: [list(x.items()) for x in load_csv(p, **kw)])
     if a != b:
         return {"strip_line": repr(a)[:300], "plain": repr(b)[:300], "kwargs": repr(kw), "file": repr(open(p, "rb").read())[:300]}
+    # ... and it is the saved table (in binary read mode: the text-mode table, encoded)
+    exp = encode_expected(exp, c["bin"])
+    if a != (("err", exp) if isinstance(exp, str) else ("ok", exp)):
+        return {"strip_line": repr(a)[:300], "want": repr(exp)[:300], "kwargs": repr(kw), "file": repr(open(p, "rb").read())[:300]}
     return None
 
 
@@ -1095,10 +1164,13 @@ def check_keep_empty_lines(c):
     load_csv = impl()[0]
     d, hdr, rows = c["d"], c["hdr"], c["rows"]
     cells = lambda r: r if r else [""]
-    cc = dict(c, bin=False, trim=False)
+    binary = bool(c.get("bin", False))
+    cc = dict(c, bin=binary, trim=False)
+    kw = encode_kwargs(dict(delimiter=d, skip_empty_lines=False), binary)
+    kw["delimiter"] = d
     if c["smode"] == "file":
         p = make_table_file(cc, True)
-        r = core.call(lambda: [list(x.items()) for x in load_csv(p, delimiter=d, header_is_mandatory=True, skip_empty_lines=False)])
+        r = core.call(lambda: [list(x.items()) for x in load_csv(p, header_is_mandatory=True, **kw)])
         want = [rec_of(hdr, cells(row)) for row in rows]
     else:
         rest = list(rows)
@@ -1107,8 +1179,9 @@ def check_keep_empty_lines(c):
         if not rest:
             return None
         p = make_table_file(cc, False)
-        r = core.call(lambda: [list(x.items()) for x in load_csv(p, delimiter=d, skip_empty_lines=False)])
+        r = core.call(lambda: [list(x.items()) for x in load_csv(p, **kw)])
         want = [rec_of(list(range(len(rest[0]))), cells(row)) for row in rest]
+    want = encode_expected(want, binary)
     if r != ("ok", want):
         return {"got": repr(r)[:300], "want": repr(want)[:300], "file": repr(open(p, "rb").read())[:300]}
     return None
@@ -1239,14 +1312,17 @@ def run_reader(ctx, cases, scases, rcases):
     rng = ctx.rng("strip")
     pcases = []
     for i, c in enumerate(rcases):
-        pads = [[("".join(rng.choice(BLANKS) for _ in range(rng.choice([0, 0, 1, 2])))) for _ in range(2)] for _ in range(rng.randint(1, 5))]
+        binary = rng.random() < 0.4
+        # binary read mode: half of the tables carry only blanks that bytes.strip() removes too (outside C14-g)
+        pads = gen_pads(rng, ASCII_BLANKS if (binary and rng.random() < 0.5) else BLANKS)
         # the cells of the property: written with blanks around a core that has none at its ends
         core_ = lambda x: x.strip()
         hdr = [core_(x) for x in c["hdr"]]
         if len(set(hdr)) != len(hdr):
             continue
-        pcases.append({"d": c["d"], "hdr": hdr, "rows": [[core_(x) for x in r] for r in c["rows"]], "eol": c["eol"], "bom": c["bom"],
-                       "via": c["via"], "trim": c["trim"], "pads": pads, "smode": ("file", "pos")[i % 2]})
+        pcases.append({"d": c["d"], "hdr": hdr, "rows": [[core_(x) for x in r] for r in c["rows"]], "eol": c["eol"],
+                       "via": c["via"], "trim": c["trim"], "pads": pads, "smode": ("file", "pos")[i % 2], "bin": binary,
+                       "bom": c["bom"] and not binary})
     ctx.evaluate("strip_field", pcases, check_strip_field, in_known=known_class, nontrivial=lambda c: bool(c["rows"]) and any(p != ["", ""] for p in c["pads"]))
     ctx.evaluate("keep_empty_lines", pcases, check_keep_empty_lines, in_known=known_class, nontrivial=lambda c: any(not r for r in c["rows"]))
     ctx.evaluate("strip_line_clean", rcases[2 :: 3], check_strip_line_clean, in_known=known_class, nontrivial=lambda c: bool(c["rows"]))
@@ -1380,7 +1456,25 @@ def run(ctx):
     ctx.evaluate("roundtrip", rcases, check_roundtrip, in_known=known_class, nontrivial=nt)
     sub = rcases[:: 4]
     ctx.evaluate("csv_module", sub, check_csv_module, in_known=known_class, nontrivial=nt)
-    ctx.evaluate("eol_bom_invariant", rcases[1 :: 6], check_eol_bom_invariant, in_known=known_class, nontrivial=nt)
+    # LF/CRLF x BOM x read mode, also under the strip options: tables written with blanks around the cells
+    rng = ctx.rng("eol_bom_strip")
+    ecases = []
+    for c in rcases[1 :: 6]:
+        hdr = [x.strip() for x in c["hdr"]]
+        if rng.random() < 0.4 or len(set(hdr)) != len(hdr):
+            ecases.append(c)
+            continue
+        which = rng.choice(["sf", "sf", "sl", "both"])
+        ecases.append(dict(
+            c, hdr=hdr, sel=[x.strip() for x in c["sel"]], rows=[[x.strip() for x in r] for r in c["rows"]],
+            pads=gen_pads(rng, ASCII_BLANKS if rng.random() < 0.5 else BLANKS), sf=which in ("sf", "both"), sl=which in ("sl", "both"),
+        ))
+    ctx.evaluate("eol_bom_invariant", ecases, check_eol_bom_invariant, in_known=known_class, nontrivial=nt)
+    ctx.extra["eol_bom_strip"] = {
+        "plain": sum(1 for c in ecases if "pads" not in c),
+        "strip, blanks bytes.strip() removes too": sum(1 for c in ecases if "pads" in c and not cls_binary_unicode_blank(c)),
+        "strip, inside the class of C14-g": sum(1 for c in ecases if "pads" in c and cls_binary_unicode_blank(c)),
+    }
 
     ctx.extra["modes"] = {m: sum(1 for c in rcases if c["mode"] == m and build_mode(c) is not None) for m in modes}
     ctx.extra["assumptions"] = [
